@@ -3,7 +3,7 @@
  * cstl_raw_array_sort, __cstl_vector_sort, cstl_raw_array_search/find/reverse and the vector wrappers.
  *
  * usage: drv_sort <out> exhaustive <maxlen> <maxdraws>     all arrays over {1,2,3} up to maxlen, every selector,
- *                                                          element sizes 1,2,3,4,8,16, every rand() draw sequence
+ *                                                          element sizes 1,2,3,4,8,16,12,24, every rand() draw sequence
  *        drv_sort <out> large <n> <seed>                   adversarial inputs of n elements
  *
  * Every call the library makes to the comparison and swap callbacks is logged with the element indexes
@@ -138,7 +138,7 @@ static void fill(const int *vals)
     for (i = 0; i < N; i++) {
         unsigned char *e = arr + i * ESZ;
         e[0] = (unsigned char)vals[i];
-        if (ESZ >= 3) { e[1] = (unsigned char)((i + 1) & 0xff); e[2] = (unsigned char)((i + 1) >> 8); for (j = 3; j < ESZ; j++) e[j] = (unsigned char)(0x30 + j); }
+        if (ESZ >= 3) { e[1] = (unsigned char)((i + 1) & 0xff); e[2] = (unsigned char)((i + 1) >> 8); for (j = 3; j < ESZ; j++) e[j] = (unsigned char)(0x30 + j + 7 * (i + 1)); }    /* every byte of an element names it */
         else if (ESZ == 2) e[1] = (unsigned char)(i + 1);
     }
 }
@@ -147,7 +147,7 @@ static long id_at(size_t i)
     const unsigned char *e = arr + i * ESZ; size_t j;
     if (ESZ == 1) return 0;
     if (ESZ == 2) return e[1];
-    for (j = 3; j < ESZ; j++) if (e[j] != (unsigned char)(0x30 + j)) return -1;
+    for (j = 3; j < ESZ; j++) if (e[j] != (unsigned char)(0x30 + j + 7 * (size_t)(e[1] | (e[2] << 8)))) return -1;     /* a mixture of two elements */
     return e[1] | (e[2] << 8);
 }
 static void put_arr(const char *name)
@@ -264,7 +264,7 @@ static void run_probe(const char *op, const int *vals, size_t n, size_t esz, int
 static int icmp(const void *a, const void *b) { return *(const int *)a - *(const int *)b; }
 int main(int argc, char **argv)
 {
-    static const size_t sizes[] = { 1, 2, 3, 4, 8, 16 };
+    static const size_t sizes[] = { 1, 2, 3, 4, 8, 16, 12, 24 };      /* 12: wider than a word and not a multiple of one */
     static const int algos[] = { 0, 1, 2, 3, 7 };
     int vals[MAXN];
     if (argc < 4) return 64;
